@@ -37,6 +37,7 @@ CONSTANTS
   Threads,      \* {0} or {0,1}: the thread a cow currently lives on
   AllowShared,  \* FALSE: no Arc-backed cows (the Key / [Label] domain has no public constructor for them)
   MaxOps,       \* 0 = unbounded operation sequences, n > 0 = at most n state-changing operations
+  FmtCaps,      \* possible values of fmtcap (below)
   Bug           \* "none" | "io_drop" | "cl_noinc" | "drop_len0"
 
 VARIABLES
@@ -47,9 +48,13 @@ VARIABLES
   dcl,     \* element clones performed by the last action
   ddr,     \* element drops performed by the last action
   err,     \* "none" or the first undefined-behaviour event
-  nops     \* operations so far (only when MaxOps > 0)
+  nops,    \* operations so far (only when MaxOps > 0)
+  fmtcap   \* constant of the run: smallest capacity of a non-empty String built through fmt::Display.
+           \* owned_from_parts of a Shared str calls `s.to_string()` on the Arc<str>, which is the generic
+           \* Display-based ToString (not str's specialised one): the copy gets capacity max(len, 8).
+           \* 8 in the str domain, 0 (copies are exact) for slices.
 
-vars == <<slots, owned, heap, elive, dcl, ddr, err, nops>>
+vars == <<slots, owned, heap, elive, dcl, ddr, err, nops, fmtcap>>
 MAXC == -1                                   \* stands for usize::MAX in the capacity word
 
 \* ---- pointers, values, heap objects (uniform record shapes) ----
@@ -92,6 +97,13 @@ ToOwned(h, content) ==
   ELSE LET a == FreshId(h) IN
        [h |-> [h EXCEPT ![a] = VecObj(Len(content), content)], ptr |-> HeapPtr(a), cap |-> Len(content)]
 
+\* copy whose capacity is at least mincap (when it allocates at all)
+ToOwnedMin(h, content, mincap) ==
+  IF content = <<>> THEN [h |-> h, ptr |-> Dangling, cap |-> 0]
+  ELSE LET a == FreshId(h)
+           c == IF Len(content) < mincap THEN mincap ELSE Len(content) IN
+       [h |-> [h EXCEPT ![a] = VecObj(c, content)], ptr |-> HeapPtr(a), cap |-> c]
+
 \* drop(Vec::from_raw_parts(ptr, len, cap)): drops `len` elements, deallocates a buffer of `cap` elements
 DropVec(h, p, n, c) ==
   IF c = 0 THEN [h |-> h, drops |-> 0, bad |-> IF n = 0 THEN "none" ELSE "drop_dangling_elems"]
@@ -124,6 +136,7 @@ Init ==
   /\ owned = [j \in 1..NOwned |-> NoVal]
   /\ heap = [a \in Objs |-> FreeObj]
   /\ elive = 0 /\ dcl = 0 /\ ddr = 0 /\ err = "none" /\ nops = 0
+  /\ fmtcap \in FmtCaps
 
 (***************************************************************************)
 (* Constructors                                                            *)
@@ -220,7 +233,7 @@ IntoOwned(i, j) ==
              [] Kind(c) = "O" ->                 \* Vec::from_raw_parts(ptr, len, capacity)
                   [h |-> heap, val |-> Val(c.ptr, c.len, c.cap, c.src, 0), clones |-> 0, drops |-> 0, bad |-> "none"]
              [] Kind(c) = "S" ->                 \* Arc::from_raw; to_vec()/to_string(); the Arc is dropped
-                  LET r == ToOwned(heap, content)
+                  LET r == ToOwnedMin(heap, content, fmtcap)
                       d == DropArc(r.h, c.ptr) IN
                   [h |-> d.h, val |-> Val(r.ptr, Len(content), r.cap, c.src, 0),
                    clones |-> Len(content), drops |-> d.drops, bad |-> First(rdbad, d.bad)]
@@ -297,20 +310,23 @@ FirstFree(f) == CHOOSE i \in DOMAIN f : ~f[i].full /\ \A k \in 1..(i-1) : f[k].f
 Iota(base, n) == [x \in 1..n |-> base + x]
 NArcs == Cardinality({a \in Objs : heap[a].kind = "arc"})
 
-Next ==
-  \/ \E n \in Lens : HasFree(slots) /\ NewBorrowed(FirstFree(slots), 0, Iota(120, n))
-  \/ \E n \in Lens, c \in Caps : HasFree(slots) /\ n <= c /\ NewOwned(FirstFree(slots), 0, Iota(0, n), c)
-  \/ \E n \in Lens : HasFree(slots) /\ NArcs < MaxArcs /\ NewShared(FirstFree(slots), 0, Iota(50, n))
-  \/ \E a \in Objs : HasFree(slots) /\ ShareAgain(FirstFree(slots), 0, a)
-  \/ \E a \in Objs : DropHolder(a)
-  \/ \E i \in 1..NSlots : HasFree(slots) /\ Clone(i, FirstFree(slots))
-  \/ \E i \in 1..NSlots : HasFree(owned) /\ IntoOwned(i, FirstFree(owned))
-  \/ \E i \in 1..NSlots : DropCow(i)
-  \/ \E j \in 1..NOwned : DropOwned(j)
-  \/ \E j \in 1..NOwned : HasFree(slots) /\ FromOwned(j, FirstFree(slots), 0)
-  \/ \E i \in 1..NSlots, t \in Threads : MoveToThread(i, t)
-  \/ \E i \in 1..NSlots : Peek(i)
-  \/ \E i, j \in 1..NSlots : Peek2(i, j)
+F == UNCHANGED fmtcap
+ANewBorrowed  == F /\ \E n \in Lens : HasFree(slots) /\ NewBorrowed(FirstFree(slots), 0, Iota(120, n))
+ANewOwned     == F /\ \E n \in Lens, c \in Caps : HasFree(slots) /\ n <= c /\ NewOwned(FirstFree(slots), 0, Iota(0, n), c)
+ANewShared    == F /\ \E n \in Lens : HasFree(slots) /\ NArcs < MaxArcs /\ NewShared(FirstFree(slots), 0, Iota(50, n))
+AShareAgain   == F /\ \E a \in Objs : HasFree(slots) /\ ShareAgain(FirstFree(slots), 0, a)
+ADropHolder   == F /\ \E a \in Objs : DropHolder(a)
+AClone        == F /\ \E i \in 1..NSlots : HasFree(slots) /\ Clone(i, FirstFree(slots))
+AIntoOwned    == F /\ \E i \in 1..NSlots : HasFree(owned) /\ IntoOwned(i, FirstFree(owned))
+ADropCow      == F /\ \E i \in 1..NSlots : DropCow(i)
+ADropOwned    == F /\ \E j \in 1..NOwned : DropOwned(j)
+AFromOwned    == F /\ \E j \in 1..NOwned : HasFree(slots) /\ FromOwned(j, FirstFree(slots), 0)
+AMoveToThread == F /\ \E i \in 1..NSlots, t \in Threads : MoveToThread(i, t)
+APeek         == F /\ \E i \in 1..NSlots : Peek(i)
+APeek2        == F /\ \E i, j \in 1..NSlots : Peek2(i, j)
+
+Next == \/ ANewBorrowed \/ ANewOwned \/ ANewShared \/ AShareAgain \/ ADropHolder \/ AClone \/ AIntoOwned
+        \/ ADropCow \/ ADropOwned \/ AFromOwned \/ AMoveToThread \/ APeek \/ APeek2
 
 Spec == Init /\ [][Next]_vars
 
@@ -338,7 +354,7 @@ Unref == {a \in Objs : heap[a].kind # "free" /\ RefsTo(a) = {}
                         /\ \A j \in 1..NOwned : ~(owned[j].full /\ owned[j].ptr = HeapPtr(a))}
 UnrefBag == [o \in {heap[a] : a \in Unref} |-> Cardinality({a \in Unref : heap[a] = o})]
 View == <<[i \in 1..NSlots |-> CanonCow(slots[i])], [j \in 1..NOwned |-> CanonOwned(owned[j])],
-          UnrefBag, elive, err, nops>>
+          UnrefBag, elive, err, nops, fmtcap>>
 
 (***************************************************************************)
 (* Properties                                                              *)
